@@ -79,6 +79,7 @@ func newWorkerResult() *WorkerResult {
 
 type Interp struct {
 	rangeFixed bool
+	executing  bool // inside the interpretation of a path (budget panics are recovered there)
 	inGoroutine int
 	skipExt    *ssa.Function // callReal: the next call of this function runs its SSA, not its external
 	prog          *ssa.Program
@@ -429,6 +430,8 @@ func (in *Interp) runPath(prefix []Dec) {
 	in.npaths++
 	status, msg := "ok", ""
 	func() {
+		in.executing = true
+		defer func() { in.executing = false }()
 		defer func() {
 			r := recover()
 			if r == nil {
